@@ -618,6 +618,19 @@ func runC13(c *Ctx) {
 			}
 		}
 		if len(starts) == 0 {
+			// handleMessage folded into recvLoop: the edge on which the merged handling error is nil
+			nilE, _ := handlingErrorEdges(rv)
+			for _, e := range nilE {
+				starts = append(starts, e.from.Succs[e.succ])
+				hmBlock = e.from
+				for _, ci := range allCalls(rv) {
+					if calleeName(ci.Common()) == "protocol.(*Protocol).transitionState" {
+						hmBlock = ci.Block()
+					}
+				}
+			}
+		}
+		if len(starts) == 0 {
 			c.Undecided("recvLoop: the handleMessage success edge was not recognised")
 		} else {
 			spec := PassSpec{
